@@ -8,6 +8,7 @@ handshake endpoints must in addition send nothing but alerts after the failed dr
 """
 import ctypes
 import hashlib
+import os
 
 from ..ref import sm2 as R
 from .. import sm2util as U
@@ -548,6 +549,59 @@ def u_op(ctx, u):
             ctx.check(not okF, 'fail-open:success-despite-failed-draw:' + name, draw=i, of=nP, forced_rejections=k, output=outF[:48].hex())
             ctx.nontrivial(name, 'forced-fail-at', k, i, sa)
             ctx.stat('faults_injected')
+    # (6) an all-zero candidate at each 32-octet position of the stream (a zero nonce: to be redrawn, refused, or - where the
+    # library asserts - fatal; never "success" with an output that was not computed).  Each stream is run twice in forked
+    # children that differ only in what output buffers and the stack held before: where both report success the outputs
+    # must be identical, as for any other pair of equal streams.  A child killed by the library's own assertion counts as
+    # "nothing emitted" (statistic, see DESIGN 11.5).
+    sh.vf_entropy_seed(ctypes.c_uint64(sa))
+    spec['call'](ctx, st)
+    logA = U.entropy_log(ctx)
+
+    def child_run(prefix, alt):
+        rfd, wfd = os.pipe()
+        pid = os.fork()
+        if pid == 0:
+            try:
+                os.close(rfd)
+                dn = os.open('/dev/null', os.O_WRONLY)
+                os.dup2(dn, 2)
+                ctx.fill_alt = alt
+                sh.vf_entropy_seed(ctypes.c_uint64(sa))
+                pb = ctx.inbuf(prefix)
+                sh.vf_entropy_push(pb, len(prefix))
+                sh.vf_stack_dirty(0xEE if alt else 0x11)
+                okk, out, eph = spec['call'](ctx, st)
+                os.write(wfd, (b'1' if okk else b'0') + hashlib.sha256(bytes(out)).digest() + bytes(out[:64]))
+            finally:
+                os._exit(0)
+        os.close(wfd)
+        data = b''
+        while True:
+            ch = os.read(rfd, 4096)
+            if not ch:
+                break
+            data += ch
+        os.close(rfd)
+        _, status = os.waitpid(pid, 0)
+        if os.WIFSIGNALED(status) or len(data) < 33:
+            return 'killed', None, None
+        return ('ok' if data[:1] == b'1' else 'refused'), data[1:33], data[33:]
+    for pos in range(min(len(logA) // 32, 6 if u.get('repeat', 0) < 100 else 12)):
+        prefix = logA[:32 * pos] + bytes(32)
+        ctx.begin([name, 'zero-candidate', pos])
+        r1, h1, o1 = child_run(prefix, False)
+        r2, h2, o2 = child_run(prefix, True)
+        ctx.stat('zero_candidate_streams')
+        ctx.stat('zero_candidate_%s' % r1)
+        if r1 == 'killed':
+            ctx.stat('info_zero_candidate_fatal:' + name)
+        if r1 == 'ok' and r2 == 'ok':
+            ctx.check(h1 == h2, 'determinism:same-stream-different-output:' + name, zero_candidate_at=pos, first=o1.hex(), second=o2.hex(),
+                      note='the two runs differ only in the previous content of output buffers and stack')
+        else:
+            ctx.check(r1 == r2, 'determinism:same-stream-different-result:' + name, zero_candidate_at=pos, results=(r1, r2))
+        ctx.nontrivial(name, 'zero-candidate', pos, sa)
     ctx.sample({'op': name, 'draws': nA, 'entropy_bytes': bytesA, 'repeat': len(seen)})
 
 
